@@ -80,8 +80,13 @@ func TestC09Broadcasts(t *testing.T) {
 				dResetClock()
 				a := newDNode("A", 1, 0)
 				m := newDNode("M", 3, 0)
+				// a second origin whose queue is only drained at the end of the sequence: broadcasts stay
+				// pending while later operations queue theirs (a queued broadcast must not cancel another)
+				a2 := newDNode("A", 1, 0)
+				m2 := newDNode("M2", 4, 0)
 				if preload {
 					c09preload(a, m)
+					c09preload(a2, m2)
 				}
 				names := make([]string, 0, len(seq))
 				for _, oi := range seq {
@@ -95,6 +100,9 @@ func TestC09Broadcasts(t *testing.T) {
 					}
 					steps++
 					m.recv(msgs...)
+					dCur = a2
+					vk.Recover(func() { op.run(a2) })
+					dCur = nil
 					after := a.list()
 					la, lm := after.String(), m.list().String()
 					changed := diffKeys(before, after)
@@ -122,6 +130,7 @@ func TestC09Broadcasts(t *testing.T) {
 							named[e.kind+":"+e.key] = true
 						}
 					}
+					_ = a2
 					for _, k := range changed {
 						if !named[strings.TrimSuffix(k, "#dup")] {
 							rep.Violate(vk.Violation{Sig: "c09-change-without-broadcast:" + opKind(op.name),
@@ -130,6 +139,13 @@ func TestC09Broadcasts(t *testing.T) {
 							return
 						}
 					}
+				}
+				// lazily drained origin: everything it queued is delivered now, in the queue's own order
+				m2.recv(a2.drain()...)
+				if la, lm := a2.list().String(), m2.list().String(); la != lm {
+					rep.Violate(vk.Violation{Sig: "c09-pending-broadcast-lost",
+						Msg:    fmt.Sprintf("preload=%v, %v with the queue drained only at the end: origin lists %s but the node fed with its broadcasts lists %s", preload, names, la, lm),
+						Replay: map[string]any{"preload": preload, "ops": append([]string{}, names...), "drain": "at end"}})
 				}
 			})
 			if !complete {
